@@ -350,6 +350,10 @@ def synthetic():
 
 
 MUTANTS = [
+    Mutant('phase-by-self-normalisation', MI, 'MRT._calc_precoder',
+           [('replace', 'np.exp(-1j * np.angle(channel)).T', '(channel.conj() / np.abs(channel)).T')], r'C04\.k:MRT\._calc_precoder:z-over-abs-z'),
+    Mutant('geometric-mean-over-all-singular-values', 'pyphysim/util/misc.py', 'gmd',
+           [('replace', 'sigma_bar = np.prod(S[0:p]) ** (1.0 / p)', 'sigma_bar = math.exp(np.sum(np.log(S[0:p])) / S.size)')], r'C04\.l:gmd:count:S'),
     Mutant('gmd-absolute-tolerance-default', 'pyphysim/util/misc.py', 'gmd',
            [('replace', 'tol: float=0.0', 'tol: float=1e-06')], r'C04\.h:GMDMimo\._calc_(precoder|receive_filter):gmd-tolerance'),
     Mutant('benign-gmd-tolerance-int-zero', 'pyphysim/util/misc.py', 'gmd',
